@@ -59,6 +59,10 @@ func (p Password) Match(pw string) (bool, error) {
 		if err != nil {
 			return false, err
 		}
+		if len(key) == 0 {
+			// an empty key would match any password
+			return false, errors.New("empty key")
+		}
 		salt, err := hex.DecodeString(p.Salt)
 		if err != nil {
 			return false, err
